@@ -5,19 +5,19 @@ namespace DFV.C18
 open DFV
 
 def exMesh : Mesh :=
-  ⟨⟨[0, 0, 0], [4, 4, 2], ["x", "y", "z"], ["m", "m", "m"], 1/1000000000000⟩, [4, 4, 2], "", []⟩
+  ⟨⟨[0, 0, 0], [4, 4, 3], ["x", "y", "z"], ["m", "m", "m"], 1/1000000000000⟩, [4, 4, 3], "", []⟩
 
-/-- a 4×4×2 scalar field with affine data `1 + 2x − 3y + 5z` on the box [0,4]×[0,4]×[0,2] -/
+/-- a 4×4×3 scalar field with affine data `1 + 2x − 3y + 5z` on the box [0,4]×[0,4]×[0,3] -/
 def exF : Fld :=
   { mesh := exMesh, nvdim := 1,
-    data := ⟨[4, 4, 2], fun idx => [1 + 2 * centreAbs exMesh 0 (idx.getD 0 0) + (-3) * centreAbs exMesh 1 (idx.getD 1 0)
+    data := ⟨[4, 4, 3], fun idx => [1 + 2 * centreAbs exMesh 0 (idx.getD 0 0) + (-3) * centreAbs exMesh 1 (idx.getD 1 0)
                                       + 5 * centreAbs exMesh 2 (idx.getD 2 0)]⟩,
-    valid := NDA.const [4, 4, 2] true, vdims := none, vmap := [], unit := none }
+    valid := NDA.const [4, 4, 3] true, vdims := none, vmap := [], unit := none }
 
 /-- a uniform 3-vector field `(7, −2, 3)` with labels `p, q, r` mapped to `y, x, z` -/
 def exV : Fld :=
-  { mesh := exMesh, nvdim := 3, data := ⟨[4, 4, 2], fun _ => [7, -2, 3]⟩,
-    valid := NDA.const [4, 4, 2] true, vdims := some ["p", "q", "r"],
+  { mesh := exMesh, nvdim := 3, data := ⟨[4, 4, 3], fun _ => [7, -2, 3]⟩,
+    valid := NDA.const [4, 4, 3] true, vdims := some ["p", "q", "r"],
     vmap := [("p", "y"), ("q", "x"), ("r", "z")], unit := none }
 
 /-- rotation about z with cos = 3/5, sin = 4/5 (quaternion 2 + k) -/
@@ -25,8 +25,8 @@ def exR : M3 := M3.ofQuat 2 0 0 1
 /-- rotation about (1,1,1) by 120° composed … a generic rational rotation (quaternion 1 + 2i − 2j + 3k) -/
 def exR2 : M3 := M3.ofQuat 1 2 (-2) 3
 
-def exReg : Region := ⟨[-4/5, -4/5, 0], [24/5, 24/5, 2], ["x", "y", "z"], ["m", "m", "m"], 1/1000000000000⟩
-def exNM : Mesh := ⟨exReg, [5, 5, 2], "", []⟩
+def exReg : Region := ⟨[-4/5, -4/5, 0], [24/5, 24/5, 3], ["x", "y", "z"], ["m", "m", "m"], 1/1000000000000⟩
+def exNM : Mesh := ⟨exReg, [5, 5, 3], "", []⟩
 
 def okIs {α} [DecidableEq α] (x : M α) (r : α) : Bool :=
   match x with
@@ -49,17 +49,17 @@ theorem isOk_sound {α} (x : M α) (h : isOk x = true) : ∃ v, x = .ok v := by
 
 theorem exNewRegion : newRegion exF exR = .ok exReg := okIs_sound _ _ (by decide +kernel)
 theorem exNewRegionV : newRegion exV exR = .ok exReg := okIs_sound _ _ (by decide +kernel)
-theorem exMk : Mesh.mkN? exReg [5, 5, 2] "" = .ok exNM := okIs_sound _ _ (by decide +kernel)
+theorem exMk : Mesh.mkN? exReg [5, 5, 3] "" = .ok exNM := okIs_sound _ _ (by decide +kernel)
 theorem exOrdV : ordFor exV = .ok [1, 0, 2] := okIs_sound _ _ (by decide +kernel)
 
-theorem exRot : rotateOnce exF exR (some [5, 5, 2]) = .ok (rotated exF exR [] exNM) := by
+theorem exRot : rotateOnce exF exR (some [5, 5, 3]) = .ok (rotated exF exR [] exNM) := by
   unfold rotateOnce
   rw [exNewRegion]
   simp only [Option.getD_some]
   rw [exMk]
   rfl
 
-theorem exRotV : rotateOnce exV exR (some [5, 5, 2]) = .ok (rotated exV exR [1, 0, 2] exNM) := by
+theorem exRotV : rotateOnce exV exR (some [5, 5, 3]) = .ok (rotated exV exR [1, 0, 2] exNM) := by
   unfold rotateOnce
   rw [exNewRegionV]
   simp only [Option.getD_some]
